@@ -598,6 +598,7 @@ def flow_sig(i):
 
 
 def run_h(P, tables, scope_filter=None, rule="H"):
+    from common import norm_fn
     findings, obl, samples = [], [], []
     reach = e3.entry_reach(P)
     sites = hash_sites(P, reach)
@@ -622,7 +623,7 @@ def run_h(P, tables, scope_filter=None, rule="H"):
     for s in sites:
         if scope_filter and not scope_filter(s["fn"]):
             continue
-        grouped[(s["fn"], coll_key(s["coll"]), s["method"])].append(s)
+        grouped[(norm_fn(s["fn"]), norm_fn(coll_key(s["coll"])), norm_fn(s["method"]))].append(s)
     n_auto = n_audit = 0
     used = set()
     todo = []
@@ -635,7 +636,7 @@ def run_h(P, tables, scope_filter=None, rule="H"):
             n_auto += len(ss)
             obl.append({"rule": rule, "inst": f"{key[0]} {key[2]}() over {key[1][:70]} x{len(ss)}: AUTO-SAFE", "ok": True})
             if len(samples) < 4:
-                samples.append({"rule": rule, "site": P.site_loc(key[0], ss[0]["line"]), "method": key[2], "verdict": "auto-safe"})
+                samples.append({"rule": rule, "site": P.site_loc(ss[0]["fn"], ss[0]["line"]), "method": key[2], "verdict": "auto-safe"})
             continue
         e = audit.get(key)
         new_flows = []
@@ -648,10 +649,10 @@ def run_h(P, tables, scope_filter=None, rule="H"):
             n_audit += len(ss)
             obl.append({"rule": rule, "inst": f"{key[0]} {key[2]}() over {key[1][:70]} x{len(ss)}: audited ({e['reason'][:70]})", "ok": ok})
             if len(samples) < 8:
-                samples.append({"rule": rule, "site": P.site_loc(key[0], ss[0]["line"]), "method": key[2], "verdict": "audited: " + e["reason"][:120]})
+                samples.append({"rule": rule, "site": P.site_loc(ss[0]["fn"], ss[0]["line"]), "method": key[2], "verdict": "audited: " + e["reason"][:120]})
             if not ok:
                 findings.append({"rule": rule + "-witness", "key": f"{rule}w|{key[0]}|{key[1]}|{key[2]}", "msg": f"audited hash-iteration site in {key[0]} lost its witness: {why}",
-                                 "loc": P.site_loc(key[0], ss[0]["line"]), "detail": {}})
+                                 "loc": P.site_loc(ss[0]["fn"], ss[0]["line"]), "detail": {}})
             continue
         first = issues[0]
         if new_flows:
@@ -662,7 +663,7 @@ def run_h(P, tables, scope_filter=None, rule="H"):
                          "msg": f"{key[0]} iterates a hash-ordered collection ({key[2]}() -> {key[1][:80]}, {len(ss)} site(s)) and the order can become data: {first[0]} {first[1]} (line {first[2]})"
                                 + (f" (+{len(issues) - 1} more flows)" if len(issues) > 1 else "")
                                 + ((f"; the site is audited but this flow is new: {new_flows[:3]}" if new_flows else "; audited count exceeded") if e else ""),
-                         "loc": P.site_loc(key[0], ss[0]["line"]), "detail": {"flows": [list(i) for i in issues[:8]]}})
+                         "loc": P.site_loc(ss[0]["fn"], ss[0]["line"]), "detail": {"flows": [list(i) for i in issues[:8]]}})
     stale = sorted("|".join(k) for k in set(audit) - used if not scope_filter or scope_filter(k[0]))
     stats = {"hash_iteration_sites": sum(len(v) for v in grouped.values()), "site_groups": len(grouped), "auto_safe_sites": n_auto,
              "audited_sites": n_audit, "stale_audit_entries": stale}
